@@ -25,11 +25,12 @@ CONSTANTS Topos,         \* set of topologies: Seq of head counts per worldline,
           Export
 
 VARIABLES topo, bg, tkt, sp,   \* the scenario (chosen in Init)
+          canon,               \* present heads in canonical order (computed once in Init)
           pass, phase,         \* generator control: phase \in {"load", "recover", "done"}
           todo,                \* primitive Runtime actions still to perform, in order
           hist                 \* [a: action, r: result, s: projected state] per performed action
 
-gvars == <<topo, bg, tkt, sp, pass, phase, todo, hist>>
+gvars == <<topo, bg, tkt, sp, canon, pass, phase, todo, hist>>
 allvars == <<vars, gvars>>
 
 AllSpecialKinds == {"conf", "panic", "uwrite", "uread", "xwarp", "badop", "tktdup", "provgap",
@@ -63,7 +64,7 @@ IntentName(i) == IntentNameT[i]
 TicketName(p, h, s) == "t" \o ToString(p) \o "." \o HeadName(h) \o "." \o ToString(s)
 
 \* ---- the scenario -------------------------------------------------------------------
-Canon == SortHeads(PresentHeads)
+Canon == canon
 PosOf(h) == CHOOSE k \in 1..Len(Canon) : Canon[k] = h
 BgHeads == IF bg = "all" THEN PresentHeads
            ELSE IF bg = "alt" THEN {h \in PresentHeads : PosOf(h) % 2 = 1}
@@ -135,23 +136,21 @@ ResJson(r) ==
   ELSE IF r.act \in {"ingest", "submit", "stage"} THEN [ok |-> r.ok, err |-> r.err, disp |-> r.disp,
                           head |-> IF r.head = None THEN "none" ELSE HeadName(r.head)]
   ELSE [ok |-> r.ok, err |-> r.err]
-\* the model-visible projection (primed copies are passed in so it can be taken after the action)
-Proj(tk, gt, pv, pd, cm, ev, fl, fh, rf, cr, wp, sg, wt, el, gm, tm) ==
-  [tick |-> [w \in PresentWls |-> tk[w]], tickMax |-> [w \in PresentWls |-> tm[w]],
-   gt |-> gt, gtMax |-> gm,
-   prov |-> [w \in PresentWls |-> pv[w]],
-   pend |-> [k \in 1..Len(Canon) |-> Cardinality(pd[Canon[k]])],
-   comm |-> {[h |-> HeadName(c[1]), i |-> IntentName(c[2])] : c \in UNION {cm[w] : w \in PresentWls}},
-   events |-> UNION {{[w |-> w, i |-> IntentName(i)] : i \in ev[w]} : w \in PresentWls},
-   faults |-> [f \in 1..Len(fl) |-> [scope |-> ScopeJson(fl[f].scope), status |-> fl[f].status]],
-   faulted |-> {HeadName(h) : h \in {x \in PresentHeads : fh[x] # 0}},
-   rtFault |-> rf,
-   corr |-> {[h |-> HeadName(c.sub[1]), i |-> IntentName(c.sub[2]), ta |-> c.ta, gt |-> c.gt] : c \in cr},
-   wpend |-> Cardinality(wp), staged |-> Cardinality(DOMAIN sg), witnessed |-> Cardinality(wt),
-   runnable |-> LET R == {h \in PresentHeads : el[h] = "admitted" /\ fh[h] = 0 /\ rf = 0}
+\* the model-visible projection of the state AFTER the action (primed variables)
+ProjNext ==
+  [tick |-> [w \in PresentWls |-> tick'[w]], tickMax |-> [w \in PresentWls |-> tickMax'[w]],
+   gt |-> globalTick', gtMax |-> gtMax',
+   prov |-> [w \in PresentWls |-> prov'[w]],
+   pend |-> [k \in 1..Len(canon) |-> Cardinality(pending'[canon[k]])],
+   comm |-> {[h |-> HeadName(c[1]), i |-> IntentName(c[2])] : c \in UNION {committed'[w] : w \in PresentWls}},
+   events |-> UNION {{[w |-> w, i |-> IntentName(i)] : i \in events'[w]} : w \in PresentWls},
+   faults |-> [f \in 1..Len(faults') |-> [scope |-> ScopeJson(faults'[f].scope), status |-> faults'[f].status]],
+   faulted |-> {HeadName(h) : h \in {x \in PresentHeads : faultedHeads'[x] # 0}},
+   rtFault |-> runtimeFault',
+   corr |-> {[h |-> HeadName(c.sub[1]), i |-> IntentName(c.sub[2]), ta |-> c.ta, gt |-> c.gt] : c \in corr'},
+   wpend |-> Cardinality(wpending'), staged |-> Cardinality(DOMAIN staged'), witnessed |-> Cardinality(witnessed'),
+   runnable |-> LET R == {h \in PresentHeads : elig'[h] = "admitted" /\ faultedHeads'[h] = 0 /\ runtimeFault' = 0}
                     s == SortHeads(R) IN [k \in 1..Len(s) |-> HeadName(s[k])]]
-ProjNext == Proj(tick', globalTick', prov', pending', committed', events', faults', faultedHeads', runtimeFault',
-                 corr', wpending', staged', witnessed', elig', gtMax', tickMax')
 
 \* ---- generator ---------------------------------------------------------------------------
 Perform(op) ==
@@ -172,13 +171,13 @@ Exec ==
   /\ Perform(Head(todo))
   /\ hist' = Append(hist, [a |-> OpJson(Head(todo)), r |-> ResJson(last'), s |-> ProjNext])
   /\ todo' = Tail(todo)
-  /\ UNCHANGED <<topo, bg, tkt, sp, pass, phase>>
+  /\ UNCHANGED <<topo, bg, tkt, sp, canon, pass, phase>>
 
 PlanLoad ==
   /\ todo = <<>> /\ phase = "load"
   /\ todo' = LoadOps(pass, 1) \o <<[a |-> "tick"]>> \o AfterTick(pass)
   /\ phase' = "recover"
-  /\ UNCHANGED <<vars, topo, bg, tkt, sp, pass, hist>>
+  /\ UNCHANGED <<vars, topo, bg, tkt, sp, canon, pass, hist>>
 
 LastTickFailed == \E k \in 1..Len(hist) : /\ hist[k].a.a = "tick" /\ ~hist[k].r.ok
                                           /\ \A j \in (k + 1)..Len(hist) : hist[j].a.a # "tick"
@@ -189,12 +188,13 @@ PlanRecover ==
           /\ IF LastTickFailed /\ ActiveFaults # {}
              THEN \E m \in RecoverModes : todo' = RecoverOps(m)
              ELSE todo' = <<>>
-  /\ UNCHANGED <<vars, topo, bg, tkt, sp, hist>>
+  /\ UNCHANGED <<vars, topo, bg, tkt, sp, canon, hist>>
 
 MC_Init ==
   /\ topo \in Topos /\ bg \in BgModes /\ tkt \in TktModes
   /\ sp \in {None} \cup [pass : SpecialPasses, head : MC_Heads, kind : SpecialKinds]
   /\ (sp # None => Present(sp.head))
+  /\ canon = SortHeads(PresentHeads)
   /\ pass = 1 /\ phase = "load" /\ todo = <<>> /\ hist = <<>>
   /\ elig = [h \in MC_Heads |-> IF Present(h) THEN "admitted" ELSE "absent"]
   /\ Init0
@@ -212,6 +212,7 @@ Inv_Export == (Export /\ Done) => PrintT(<<"CASE", ToJson(CaseJson)>>)
 \* ---- topology sets for the cfg files (cfg files cannot contain tuples) ---------------------
 Topos_tiny  == {<<2, 1>>}
 Topos_quick == {<<1>>, <<2>>, <<1, 1>>, <<2, 1>>, <<1, 2, 1>>}
+Topos_six1  == {<<4, 2>>}
 Topos_six   == {<<4, 2>>, <<2, 2, 2>>}
 Topos_all   == {<<1>>, <<2>>, <<3>>, <<4>>, <<1, 1>>, <<1, 2>>, <<2, 1>>, <<1, 3>>, <<1, 4>>, <<2, 2>>, <<2, 3>>, <<2, 4>>, <<4, 2>>,
                 <<3, 3>>, <<1, 1, 1>>, <<1, 1, 2>>, <<1, 1, 3>>, <<1, 1, 4>>, <<1, 2, 2>>, <<1, 2, 3>>, <<3, 2, 1>>, <<2, 2, 2>>}
